@@ -1,12 +1,15 @@
 #!/bin/bash
-# runmut.sh <patch.diff> <prop> [<prop>...]   apply a seeded change to /repo, run the quick checks, undo it.
+# runmut.sh <patch.diff> <prop> [<prop>...]
+# Runs the quick checks against a patched COPY of /repo's HEAD (VERIF_REPO), so /repo itself is
+# never touched and several runs can go on at once. Equivalent to: git -C /repo apply; ./check; git checkout.
 # prints one line per property: CAUGHT / MISSED / INFRA
-P=$1; shift
-git -C /repo diff --quiet || { echo "/repo is dirty"; exit 2; }
-git -C /repo apply "$P" || { echo "patch does not apply"; exit 2; }
-trap 'git -C /repo checkout -- . ; git -C /repo clean -fdq -- . 2>/dev/null' EXIT
+P=$(readlink -f "$1"); shift
+R=$(mktemp -d /tmp/mutrepo.XXXXXX); trap 'rm -rf "$R"' EXIT
+(cd /repo && git archive HEAD | tar -x -C "$R") || exit 2
+(cd "$R" && patch -p1 -s < "$P") || { echo "patch does not apply"; exit 2; }
+mkdir -p /tmp/mut-evidence /tmp/mut-replays
 for prop in "$@"; do
-  out=$(cd /verif && VERIF_EVIDENCE_DIR=/tmp/mut-evidence VERIF_REPLAY_DIR=/tmp/mut-replays ${QUICK_ENV:-} ./check $prop ${TIER:-quick} 2>&1)
+  out=$(cd /verif && VERIF_REPO=$R VERIF_EVIDENCE_DIR=/tmp/mut-evidence VERIF_REPLAY_DIR=/tmp/mut-replays ./check $prop ${TIER:-quick} 2>&1)
   rc=$?
   case $rc in
     0) echo "$prop MISSED";;
